@@ -77,7 +77,13 @@ func zzEventStep(t *torrent, sto *zzStorage) {
 				al.Files = append(al.Files, allocator.File{Storage: sf, Name: f.Path, Padding: f.Padding})
 			}
 		}
+		missing := al.Error == nil && al.HasMissing
 		t.handleAllocationDone(al)
+		if missing && t.pieces != nil && t.verifier == nil {
+			for i := range t.pieces {
+				vrt.Assert(!t.pieces[i].Done, "resume data trusted although a data file was missing at start")
+			}
+		}
 	case 5:
 		vrt.Assume(t.verifier != nil)
 		vrt.Note("verification done")
